@@ -127,7 +127,7 @@ def shard(enc_kind, dt, steps, freq, tier):
     try:
         intens_grid = list(itertools.product((0.0, 0.5, 1.0), repeat=2))
         if enc_kind == "exp":
-            refracs = (None, 1, 2, 3)
+            refracs = (None, 0, 1, 2, 3)  # 0: an explicit refractory period of 0.0 is accepted by the constructor (at most one spike per step remains)
             comps = (True, False)
             alphabet = EXP_ALPHABET
         elif enc_kind == "interval":
@@ -147,7 +147,7 @@ def shard(enc_kind, dt, steps, freq, tier):
                         enc = PoissonIntervalEncoder(steps, dt, freq)
                     else:
                         enc = HomogeneousPoissonApproxEncoder(steps, dt, freq)
-                    gap = 1 if rk is None else rk
+                    gap = 1 if rk is None else max(rk, 1)
                     if enc_kind != "exp":
                         gap = 1
                     for intens in intens_grid:
@@ -202,6 +202,8 @@ def seeds_shard(tier):
                         else:
                             enc = HomogeneousPoissonApproxEncoder(steps, dt, freq, generator=g)
                         x = torch.tensor([[0.0, 0.25, 1.0], [0.5, 0.0, 0.75]])
+                        if seed % 2:  # same intensities in a non-contiguous (transposed) memory layout
+                            x = x.t().contiguous().t()
                         case = {"encoder": enc_kind, "dt": dt, "steps": steps, "frequency": freq, "refrac": refrac, "online": online, "seed": seed}
                         tally.add("evaluations")
                         try:
